@@ -64,6 +64,9 @@ def gen_cases(tier):
     # (h) bit-exact capacity of every (version, level): multi-part contents needing exactly capacity and capacity + 1 bits
     for v in T.ORDER:
         yield ('bitexact', v)
+    # (i) the command line route: --version / --error / --micro / --no-micro / --no-error-boost
+    for i in range(len(CLI_CONTENTS)):
+        yield ('cli', i)
     # (g) cross-talk: one process, one fixed order and its reverse (exposes state shared between calls, e.g. incompletely keyed caches)
     yield ('crosstalk', 0)
     yield ('crosstalk', 1)
@@ -80,11 +83,11 @@ def call(content, kw):
         return None, e
 
 
-def evaluate(acc, case, content, parts, kw, single=True, decode=False, exp_bytes=None, want='both'):
+def evaluate(acc, case, content, parts, kw, single=True, decode=False, exp_bytes=None, want='both', maker=None):
     """One model prediction replayed on the implementation.  `want` selects the statement: c04 | c05 | both."""
     pred = Sel.select(parts, error=kw.get('error'), version=kw.get('version'), micro=kw.get('micro'),
                       eci=kw.get('eci', False), boost=kw.get('boost_error', True), single=single)
-    qr, exc = call(content, kw)
+    qr, exc = call(content, kw) if maker is None else maker()
     state = (tuple(parts) if len(parts) < 4 else (len(parts), parts[0]), kw.get('error'), kw.get('micro'), kw.get('version'),
              kw.get('eci', False), kw.get('boost_error', True))
     if qr is None:
@@ -116,6 +119,8 @@ def evaluate(acc, case, content, parts, kw, single=True, decode=False, exp_bytes
             acc.violation('overflow-exception-type', 'nothing admissible fits but %s was raised instead of DataOverflowError: %s'
                           % (C.exc_name(exc), str(exc)[:60]), case)
         return None
+    if do5 and kw.get('error') is not None and (qr.error is None or Sel.LEVEL_ORDER.index(qr.error) < Sel.LEVEL_ORDER.index(kw['error'])):
+        acc.violation('level/below-request', 'level %r of the returned %s symbol is below the requested %r' % (qr.error, qr.designator, kw['error']), case)
     if pred[0] == 'refuse':
         if do4:
             acc.violation('accepted-overflow', 'model refuses (%s) but a %s symbol was returned' % (pred[1], qr.designator), case,
@@ -303,6 +308,14 @@ def run_case(case, acc, want='both'):
         merge_one(case[1], case[2], case[3], case[4], case[5], acc, want)
     elif kind == 'crosstalk':
         crosstalk(case[1], acc, want)
+    elif kind == 'cli':
+        for ver in (None, 'M1', 'M2', 'M3', 'M4', 'm2', '1', '2'):
+            for err in (None, 'L', 'M', 'Q', 'H', '-', 'm'):
+                for mic in (None, '--micro', '--no-micro'):
+                    for boost in (None, '--no-error-boost'):
+                        cli_one(case[1], ver, err, mic, boost, acc, want)
+    elif kind == 'cli1':
+        cli_one(case[1], case[2], case[3], case[4], case[5], acc, want)
     elif kind == 'bitexact':
         for lvl in T.levels_of(case[1]):
             for over in (0, 1):
@@ -393,6 +406,58 @@ def merge_one(v, lvl, mode, k1, k2, acc, want):
             acc.violation('version/too-small', 'version %r returned, even one merged segment needs %r' % (qr.version, lo[1]), case)
         if req is None and hi[0] == 'ok' and T.ORDER.index(qr.version) > T.ORDER.index(hi[1]):
             acc.violation('version/not-smallest', 'version %r returned, two separate segments already fit %r' % (qr.version, hi[1]), case)
+
+
+CLI_CONTENTS = [('numeric', '1'), ('numeric', '12345'), ('numeric', '123456'), ('alphanumeric', 'ABCDEF'), ('byte', 'abc'), ('byte', 'a' * 14),
+                ('byte', 'a' * 15), ('numeric', '1' * 35), ('alphanumeric', 'A' * 21), ('byte', 'a' * 18), ('kanji', '\u70b9\u8317')]
+
+
+def cli_one(ci, ver, err, mic, boost, acc, want):
+    """the same decision through the command line tool (cli.parse + cli.make_code, the two steps cli.main performs)"""
+    import contextlib
+    import io
+    from segno import cli
+    mode, text = CLI_CONTENTS[ci]
+    argv = ['--pattern', '0']
+    if ver is not None:
+        argv += ['--version', ver]
+    if err is not None:
+        argv += ['--error', err]
+    if mic:
+        argv.append(mic)
+    if boost:
+        argv.append(boost)
+    argv += ['--', text]
+    # what the flags mean (docs/command-line.rst): no Micro QR unless --micro (only Micro QR) or a Micro version is requested
+    v = ver.upper() if ver is not None else None
+    v = int(v) if v is not None and v.isdigit() else v
+    # (--no-micro is the default and cannot be told from "not given": a requested Micro version wins over it, see cli.parse)
+    micro = True if mic == '--micro' else (None if v in T.MICRO else False)
+    level = None if err in (None, '-') else err.upper()
+    kw = {'mask': 0}
+    if v is not None:
+        kw['version'] = v
+    if level is not None:
+        kw['error'] = level
+    if micro is not None:
+        kw['micro'] = micro
+    if boost:
+        kw['boost_error'] = False
+
+    def maker():
+        try:
+            with contextlib.redirect_stdout(io.StringIO()), contextlib.redirect_stderr(io.StringIO()):
+                cfg = cli.parse(list(argv))
+        except SystemExit:
+            return None, ValueError('command line not accepted')
+        try:
+            return cli.make_code(cfg), None
+        except Exception as e:  # judged by evaluate
+            return None, e
+    n = len(text)
+    evaluate(acc, ('cli1', ci, ver, err, mic, boost), text, [(mode, n, False)], kw, decode=True, exp_bytes=text.encode('shift_jis' if mode == 'kanji' else 'latin-1'),
+             want=want, maker=maker)
+    acc.count('cli_requests')
 
 
 def solve_bits(v, target):
